@@ -12,20 +12,11 @@ namespace etl {
 namespace detail {
 
 template <typename T>
-struct is_empty_tester_1 : etl::remove_cv_t<T> {
-    char dummy_data;
-};
-
-struct is_empty_tester_2 {
-    char dummy_data;
-};
-
-template <typename T>
 struct is_empty : false_type { };
 
 template <typename T>
     requires is_class_v<T>
-struct is_empty<T> : bool_constant<sizeof(is_empty_tester_1<T>) == sizeof(is_empty_tester_2)> { };
+struct is_empty<T> : bool_constant<__is_empty(T)> { };
 
 } // namespace detail
 
